@@ -559,7 +559,7 @@ for _t in range(11):
     CJ("C16.entry_template.t%02d" % _t, "C16", "h_parse_entry_template", remove=["xmalloc", "xrealloc"], late_stubs=["stubs/tramp_config.c", "stubs/xmalloc_mid.c", "stubs/xrealloc_small.c"],
        functions=["conf_parse_entry", "conf_parse_get_child", "conf_parse_string", "conf_parse_whitespace"], bound="one concrete documented rendering", defines=["TPL=%d" % _t],
        cbmc=["--unwind", "24", "--unwindset", "conf_parse_entry:3,memset.0:200,str_eq.0:17,nth.0:4,strcasecmp.0:4,strcmp.0:4,strdup.0:4,strlen.0:4"], solver="minisat", timeout=900, mem=16)
-CJ("C15.replace_object.omitted", "C15", "h_replace_object_scenario", functions=["conf_replace_value", "conf_parse_string_value"], bound="one concrete scenario (registered block omitted by the new file)", tiers=("thorough",),
+CJ("C15.replace_object.omitted", "C15", "h_replace_object_scenario", functions=["conf_replace_value", "conf_parse_string_value"], bound="one concrete scenario (registered block omitted by the new file; timed out after 900 s: not part of any tier)", tiers=(),
    defines=["SCN=0"], remove=["xmalloc", "xrealloc"], late_stubs=["stubs/tramp_config.c", "stubs/xmalloc_small.c", "stubs/xrealloc_small.c"],
    cbmc=["--unwind", "5", "--unwindset", "conf_replace_value:3,conf_object_cleanup:2,model_set_clear:2,sm_dispose:3,set_clear:2,memset.0:200,strcasecmp.0:4,strcmp.0:4,strdup.0:4,strlen.0:4"], solver="minisat", timeout=900, mem=16)
 CJ("C15.replace_inaddr", "C15", "h_replace_inaddr", functions=["conf_replace_value"], extra_props=("C14",), bound="(does not finish: not part of any tier)", cls="proof", tiers=(),
